@@ -4,6 +4,12 @@ NOTES = ("Every check rebuilds the harness from /repo's working tree (go build -
          "then runs the correspondence between the Lean model driver and the real code. See DESIGN.md.")
 NOT_APPLICABLE = {}
 CHECKS = {
+ "C05": {
+  "text": "Lean theorem norm_ser: for every graph and every serialisation plan (node and key order, bare value vs one-element array, @type string vs array, {@value} vs scalar, repeated values and classes, nodes embedded to any depth carrying any subset of their triples, nodes split over several occurrences, top-level array / @graph / single object) the normalisation model yields an index set-equal to the graph's canonical index; corollaries reserialisation_invariant, equiv_targets and reserialisation_same_reads (every target_class / find / property read of the policy sees the same set). The model is tied to the real Index(Normalize(.)) on generated serialisations; @context/@base documents are tied metamorphically (same index, same verdicts).",
+  "note": "Partial: json-gold outside the modelled fragment (contexts, @list, @language, typed literals, @reverse, blank nodes) is not modelled. Trusted: Lean kernel; the JSON-to-Js conversion in the driver.",
+  "technique": "Lean 4 proof (mutual structural induction over serialisation plans; set reasoning on extracted triples) + differential and metamorphic correspondence with json-gold based normalisation",
+  "ref": "DESIGN.md 7/C05",
+ },
  "C06": {
   "text": "Lean proves that each remaining iteration over a Go map is order-insensitive: inserting the entries of a map with distinct keys in any permutation yields the same lookups (insertAll_perm, iriContext_perm), and permuting the fields of any object anywhere in a report tree permutes - and does not change - the ids assigned (assignIds_perm); the inventory of range-over-map sites and go statements is regenerated with go/packages and pinned (sites_expected, no_go_statements); the old GetMapKeys order is shown to leak (old_order_leaks). Search: generated code and fixed-clock reports hashed in N fresh processes must coincide.",
   "note": "Partial: determinism inside OPA, json-gold, yaml.v3 and encoding/json is observed only. Trusted: Lean kernel; the go/packages inventory extractor.",
